@@ -46,6 +46,7 @@ type c13Spec struct {
 	HostArgs     []string `json:"host_args"` // os.Args of the host program (set before interp.New)
 	NoFix        bool     `json:"no_fix"`    // Use an export set without fmt/fmt (fixStdlib does not run)
 	Unrestricted bool     `json:"unrestricted"`
+	WaitFor      string   `json:"wait_for"` // after Eval: wait (bounded) until this marker shows up on an Options stream (goroutines started by the script)
 	Result       string   `json:"result"` // file the observations are written to
 }
 
@@ -84,7 +85,7 @@ func runC13Child(args []string) error {
 	log.SetFlags(c13HostFlags)
 	log.SetPrefix(c13HostPrefix)
 	hostWriter := log.Writer()
-	var out, errb bytes.Buffer
+	var out, errb c13LockedBuffer
 	i := interp.New(interp.Options{Stdout: &out, Stderr: &errb, Stdin: strings.NewReader(sp.Stdin), Args: sp.Args, Env: sp.Env,
 		GoPath: "/nonexistent-c13", SourcecodeFilesystem: fstest.MapFS{}, Unrestricted: sp.Unrestricted})
 	syms := interp.Exports(stdlib.Symbols)
@@ -110,6 +111,13 @@ func runC13Child(args []string) error {
 			_, obs.IsPanic = err.(interp.Panic)
 		}
 	}()
+	if sp.WaitFor != "" {
+		for t0 := time.Now(); time.Since(t0) < 4*time.Second; time.Sleep(5 * time.Millisecond) {
+			if strings.Contains(out.String(), sp.WaitFor) || strings.Contains(errb.String(), sp.WaitFor) {
+				break
+			}
+		}
+	}
 	obs.OptOut, obs.OptErr = out.String(), errb.String()
 	obs.HostLogFlags, obs.HostLogPrefix, obs.HostLogWriter = log.Flags(), log.Prefix(), log.Writer() == hostWriter
 	obs.HostEnv = os.Environ()
@@ -121,6 +129,24 @@ func runC13Child(args []string) error {
 		return err
 	}
 	return os.Rename(tmp, sp.Result)
+}
+
+// c13LockedBuffer: the script's goroutines may still write while the host reads.
+type c13LockedBuffer struct {
+	mu sync.Mutex
+	b  bytes.Buffer
+}
+
+func (l *c13LockedBuffer) Write(p []byte) (int, error) {
+	l.mu.Lock()
+	defer l.mu.Unlock()
+	return l.b.Write(p)
+}
+
+func (l *c13LockedBuffer) String() string {
+	l.mu.Lock()
+	defer l.mu.Unlock()
+	return l.b.String()
 }
 
 type c13ChildRes struct {
@@ -1046,6 +1072,53 @@ func runC13(args []string) error {
 		}
 	}
 
+	// ---------------------------------------------------------------- D''. output functions x statement forms (child processes)
+	type formRun struct {
+		f      c13OutFn
+		fm     c13Form
+		marker string
+		src    string
+	}
+	var fruns []formRun
+	for fi, f := range c13OutFns() {
+		for mi, fm := range c13Forms2() {
+			if fm.Value && f.Pkg == "" {
+				continue // a builtin is not a value
+			}
+			mk := fmt.Sprintf("C13FM%dX%dX%d", *seed, fi, mi)
+			fruns = append(fruns, formRun{f, fm, mk, c13FormScript(f, fm, mk)})
+		}
+	}
+	fres := make([]c13ChildRes, len(fruns))
+	parallelMap(len(fruns), 0, func(i int) {
+		fres[i] = c13RunChild(scratch, 7000+i, c13Spec{Src: fruns[i].src, WaitFor: fruns[i].marker, Args: c13OptArgs, HostArgs: c13HostArgs, Env: []string{c13EnvKey + "=opt"}, Stdin: c13OptStdin})
+	})
+	var formCases []string
+	for i, x := range fruns {
+		obs := c13MarkerSink(x.marker, fres[i])
+		ref := x.f.ref()
+		in := map[string]any{"kind": "io-form", "function": strings.TrimPrefix(x.f.Pkg+"."+x.f.Name, "."), "form": x.fm.Name, "script": x.src}
+		cid := newID(in)
+		formCases = append(formCases, fmt.Sprintf("(%d%%N, %s, %s, %s)", cid, x.f.coq(), obs, ref))
+		sm.Evaluations++
+		sm.ImplComparisons++
+		sm.RefComparisons++
+		sm.count("io-form")
+		sm.count("io-form:" + x.fm.Name)
+		distinct.add("io-form", x.f.Pkg, x.f.Name, x.fm.Name)
+		leak := ""
+		if fres[i].Obs != nil && strings.TrimSpace(fres[i].RealStdout+fres[i].RealStderr) != "" {
+			leak = "output on the host's own stdout/stderr: " + firstLine(fres[i].RealStdout+fres[i].RealStderr)
+		}
+		if obs != ref || leak != "" {
+			detail := map[string]any{"sink": obs, "leak": leak, "child_exit": fres[i].Exit, "child_stderr": firstLine(fres[i].RealStderr)}
+			if fres[i].Obs != nil {
+				detail["options_stdout"], detail["options_stderr"], detail["eval_err"] = fres[i].Obs.OptOut, fres[i].Obs.OptErr, firstLine(fres[i].Obs.EvalErr)
+			}
+			sm.RefMismatches = append(sm.RefMismatches, refMismatch{ID: cid, Region: "", Input: in, Impl: detail, Ref: ref})
+		}
+	}
+
 	// controls (not cases): Unrestricted does reach the host environment, so the observation above can tell the two apart;
 	// os.TempDir / os.UserHomeDir read the host environment (outside the seven functions the property names)
 	ctl := c13RunChild(scratch, 3000, c13Spec{Src: "package main\nimport \"os\"\nfunc main() { print(\"v:\", os.Getenv(\"C13K\")) }\n", Env: []string{c13EnvKey + "=opt"}, Unrestricted: true})
@@ -1217,6 +1290,9 @@ func runC13(args []string) error {
 	if err := chunk("io", "io_case", "io_mis", ioCases, 200); err != nil {
 		return err
 	}
+	if err := chunk("ioform", "io_case", "io_mis", formCases, 400); err != nil {
+		return err
+	}
 	if err := chunk("shape", "shape_case", "shape_mis", shapeCases, 200); err != nil {
 		return err
 	}
@@ -1237,6 +1313,7 @@ func runC13(args []string) error {
 	sm.Exhaustive = false
 	sm.Rule = "import matrix: every key of stdlib.Symbols at run time plus unsafe, syscall, os/exec x 5 import forms (exhaustive); exit entry points and redirected I/O functions: the whole catalogue, each in its own child process (exhaustive over the catalogue); " +
 		"replacement types (found by reflection in stdlib.Symbols) x values a script can obtain x routes to the object behind them (own methods, method value/expression, interface assertion, embedding, field selection, reflect Field/FieldByName/scan/Method/Convert) x exit-like methods, each in its own child process; " +
+		"output functions (print builtins, fmt.Print*, log.Print*/Output) x statement forms (plain, defer, go, function value, go/defer of a value, closure, goroutine body, deferred closure, init, package-level initialiser, method, named function, go of a named function, defer in a loop), each cell in its own child process; " +
 		"several interpreters in one process: fixed and seeded interleavings of New / Use(stdlib|unrestricted) / script compilations over 2..3 interpreters with their own Options, each in its own child process; " +
 		"environment: seeded sequences of 1..40 operations over 7 keys (empty key, key with '=', a host sentinel), values and ExpandEnv strings with '$' syntax, Options.Env with duplicates / missing '=' / empty entries, 3 import forms of os; " +
 		"distinct = distinct inputs; non-trivial = an environment sequence has >= 3 operation kinds and at least one mutation (every matrix cell and catalogue entry counts)"
